@@ -951,6 +951,29 @@ static void probes(void)
             V("C16", sig, "%s: xcm_receive said EAGAIN, nothing arrived since, awaiting RECEIVABLE, xcm_fd reports 0x%x",
               x->name, m);
         }
+        /* the same in the other call order: receive says EAGAIN, THEN a finish (which succeeds: nothing is pending),
+           then RECEIVABLE is awaited - nothing new has arrived, so the descriptor stays quiet */
+        {
+            unsigned char b2[16];
+            int r2 = API("xcm_receive", 1, xcm_receive(x->s, b2, sizeof b2));
+            int f2 = API("xcm_finish", 1, xcm_finish(x->s));
+            if (r2 < 0 && errno == EAGAIN && f2 == 0) {
+                API("xcm_await", 1, xcm_await(x->s, XCM_SO_RECEIVABLE));
+                m = poll3(x->fd0);
+                mc_count(0, 1);
+                if (m) {
+                    snprintf(sig, sizeof sig, "C16/readable-after-eagain-and-finish/tp=%s", g_tp);
+                    V("C16", sig, "%s: xcm_receive said EAGAIN, xcm_finish returned 0, nothing arrived since, awaiting RECEIVABLE, "
+                      "xcm_fd reports 0x%x", x->name, m);
+                }
+                API("xcm_await", 1, xcm_await(x->s, 0));
+                m = poll3(x->fd0);
+                if (m) {
+                    snprintf(sig, sizeof sig, "C16/readable-while-awaiting-nothing/after-finish/tp=%s", g_tp);
+                    V("C16", sig, "%s: idle, flushed connection, condition 0 after receive=EAGAIN and finish=0, xcm_fd reports 0x%x", x->name, m);
+                }
+            }
+        }
         API("xcm_await", 1, xcm_await(x->s, XCM_SO_SENDABLE));
         m = poll3(x->fd0);
         if (!(m & POLLIN)) {
